@@ -64,18 +64,26 @@ class LoopSpec:
     def at_exit(self, env):
         """for-loops: nothing to do by default (has_next() is assumed false by the rule)"""
 
+    def at_break(self, env):
+        """the arbitrary iteration left the loop with `break`: the elements not yet visited stay unvisited, so the
+        exhaustion fact of at_exit does NOT hold.  A contract whose loop may legitimately break overrides this."""
+        raise Unsupported("the loop body left the loop with `break`, which its loop contract does not describe")
+
 
 def _fingerprint(v):
     """cheap state fingerprint of a mutable container held in a local (shallow)"""
     from .containers import PDict, PList
     from .masked import _Masked
     from .sym import SymBytes
+    from .absobj import PSet
+    if isinstance(v, PSet):
+        return ("pset", len(v.log), id(v.base))
     if isinstance(v, _Masked):
         return ("masked", tuple(b.get_id() for b in v.bits))
     if isinstance(v, PDict):
         return ("pdict", len(v.log), id(v.base))
     if isinstance(v, PList):
-        return ("plist", len(v.items), id(v.n) if not isinstance(v.n, int) else v.n)
+        return ("plist", len(v.items), id(v.n) if not isinstance(v.n, int) else v.n, len(getattr(v, "writes", ())))
     if isinstance(v, SymBytes):
         return ("bytes", tuple(id(c) for c in v.chunks))
     if isinstance(v, (list, set, dict, bytearray)):
@@ -143,6 +151,11 @@ class _Rule:
     def exit(self, env):
         self.spec.at_exit(env)
         self.ctx.cover("loop-exit:" + self.key)
+
+    def broke(self, env):
+        self._guard_check(env)
+        self.spec.at_break(env)
+        self.ctx.cover("loop-break:" + self.key)
 
 
 _SPECS = {}      # key -> LoopSpec subclass (active during an exploration)
@@ -236,6 +249,24 @@ class _Transformer(ast.NodeTransformer):
                              body=ast.Call(func=inner, args=[ast.Starred(value=ast.Name(id="__pyvc_t", ctx=ast.Load()), ctx=ast.Load())], keywords=[]))
         return ast.copy_location(ast.Call(func=ast.Name(id="__pyvc_dictcomp__", ctx=ast.Load()), args=[g.iter, lam], keywords=[]), node)
 
+    def visit_ListComp(self, node):
+        self.generic_visit(node)
+        if not self.dicts or len(node.generators) != 1 or node.generators[0].is_async:
+            return node
+        g = node.generators[0]
+        # [E for T in IT if C]  ->  __pyvc_listcomp__(IT, lambda T: (E, C))     (same meaning on ordinary iterables)
+        cond = ast.BoolOp(op=ast.And(), values=list(g.ifs)) if len(g.ifs) > 1 else (g.ifs[0] if g.ifs else ast.Constant(True))
+        body = ast.Tuple(elts=[node.elt, cond], ctx=ast.Load())
+        if isinstance(g.target, ast.Name):
+            lam = ast.Lambda(args=ast.arguments(posonlyargs=[], args=[ast.arg(arg=g.target.id)], kwonlyargs=[], kw_defaults=[], defaults=[]), body=body)
+        elif isinstance(g.target, ast.Tuple) and all(isinstance(e, ast.Name) for e in g.target.elts):
+            inner = ast.Lambda(args=ast.arguments(posonlyargs=[], args=[ast.arg(arg=e.id) for e in g.target.elts], kwonlyargs=[], kw_defaults=[], defaults=[]), body=body)
+            lam = ast.Lambda(args=ast.arguments(posonlyargs=[], args=[ast.arg(arg="__pyvc_t")], kwonlyargs=[], kw_defaults=[], defaults=[]),
+                             body=ast.Call(func=inner, args=[ast.Starred(value=ast.Name(id="__pyvc_t", ctx=ast.Load()), ctx=ast.Load())], keywords=[]))
+        else:
+            return node
+        return ast.copy_location(ast.Call(func=ast.Name(id="__pyvc_listcomp__", ctx=ast.Load()), args=[g.iter, lam], keywords=[]), node)
+
     def visit_Call(self, node):
         self.generic_visit(node)
         f = node.func
@@ -279,12 +310,14 @@ class _Transformer(ast.NodeTransformer):
                        orelse=[ast.Expr(ast.Call(func=ast.Attribute(value=ld(lp), attr="preserved", ctx=ast.Load()), args=[call_locals], keywords=[]))],
                        type_comment=None)
         exit_call = ast.Expr(ast.Call(func=ast.Attribute(value=ld(lp), attr="exit", ctx=ast.Load()), args=[call_locals], keywords=[]))
+        # reached only when the body left the `once` loop with break (its else clause ends the path otherwise)
+        broke_call = ast.Expr(ast.Call(func=ast.Attribute(value=ld(lp), attr="broke", ctx=ast.Load()), args=[call_locals], keywords=[]))
         if is_for:
             iter_branch = [ast.Assign(targets=[copy.deepcopy(node.target)],
-                                      value=ast.Call(func=ast.Attribute(value=ld(lp), attr="element", ctx=ast.Load()), args=[], keywords=[])), once]
+                                      value=ast.Call(func=ast.Attribute(value=ld(lp), attr="element", ctx=ast.Load()), args=[], keywords=[])), once, broke_call]
             test = ast.Call(func=ast.Attribute(value=ld(lp), attr="iterate", ctx=ast.Load()), args=[], keywords=[])
         else:
-            iter_branch = [once]
+            iter_branch = [once, broke_call]
             test = copy.deepcopy(node.test)
         ruled = [havoc, ast.If(test=test, body=iter_branch, orelse=[exit_call] + else_copy)]
         new = pre + [ast.If(test=ast.Compare(left=ld(lp), ops=[ast.Is()], comparators=[ast.Constant(None)]), body=[orig], orelse=ruled)]
@@ -369,6 +402,8 @@ class instrumented:
             f.__globals__["__pyvc_dict__"] = containers.mkdict
             f.__globals__["__pyvc_join__"] = containers.bytes_join
             f.__globals__["__pyvc_dictcomp__"] = containers.dictcomp
+            from . import absobj
+            f.__globals__["__pyvc_listcomp__"] = absobj.listcomp
             for o, cls in loops.items():
                 _SPECS["%s#%d" % (fkey, o)] = cls
         return self
